@@ -64,7 +64,17 @@ def run_case(case):
         for cl, det in o.after(info):
             fails.append((cl, f"after op {box['k']} ({info['line'][:60]}): {det}", info["discarded"]))
 
-    lines, outs, l, stats, err = lnd_drive.execute(case, hook=hook)
+    try:
+        lines, outs, l, stats, err = lnd_drive.execute(case, hook=hook)
+    except Exception as e:
+        # an exception the driver does not expect from a LearnerND on a legal history (e.g. raised while the learner is
+        # being set up or inside a wrapped call): a failure of the case, not of the infrastructure
+        import traceback
+        tb = traceback.extract_tb(e.__traceback__)
+        site = next((f"{f.filename.split('/')[-1]}:{f.name}" for f in reversed(tb) if "/adaptive/" in f.filename), "harness")
+        err = {"type": type(e).__name__, "where": site, "msg": str(e)[:200], "op": "history", "chain": [site], "line": "",
+               "discarded": False}
+        return {"lines": [], "impl": [], "meta": case, "fails": [], "stats": {}, "err": err}
     st = dict(stats)
     o = box.get("o")
     if o:
